@@ -2120,7 +2120,9 @@ impl<'a> Socket<'a> {
                         }
                     );
 
-                    if self.local_rx_dup_acks == 3 {
+                    // Only data can be fast-retransmitted. If just a FIN is outstanding,
+                    // leave the retransmission timer running: it will resend the FIN.
+                    if self.local_rx_dup_acks == 3 && !self.tx_buffer.is_empty() {
                         self.timer.set_for_fast_retransmit();
                         net_debug!("started fast retransmit");
                     }
@@ -2205,6 +2207,12 @@ impl<'a> Socket<'a> {
         if self.remote_win_len != 0 && self.timer.is_zero_window_probe() {
             tcp_trace!("stopping zero-window-probe timer");
             self.timer.set_for_idle(cx.now(), self.keep_alive);
+            if self.remote_last_seq != self.local_seq_no {
+                // Octets sent before the window closed are still unacknowledged (the
+                // remote may have discarded them): they need the retransmission timer.
+                let rto = self.rtte.retransmission_timeout();
+                self.timer.set_for_retransmit(cx.now(), rto);
+            }
         }
 
         let payload_len = payload.len();
@@ -2512,6 +2520,17 @@ impl<'a> Socket<'a> {
             // infinite polling loop where `poll_at` returns `Now` but `dispatch`
             // can't actually do anything.
             self.timer.set_for_idle(cx.now(), self.keep_alive);
+
+            // Something is still unacknowledged, so a timer must stay armed even if
+            // nothing can be sent right now, or the connection would stall silently.
+            let rto = self.rtte.retransmission_timeout();
+            if self.pending_fast_retransmit {
+                // A fast retransmit does not replace the retransmission timeout.
+                self.timer.set_for_retransmit(cx.now(), rto);
+            } else if self.remote_win_len == 0 && !self.tx_buffer.is_empty() {
+                // The remote window is closed: nothing can be retransmitted, probe it.
+                self.timer.set_for_zero_window_probe(cx.now(), rto);
+            }
 
             // Inform RTTE, so that it can avoid bogus measurements.
             self.rtte.on_retransmit();
